@@ -3,7 +3,7 @@ import ast
 from fractions import Fraction
 
 from ..tyob import *  # noqa
-from ..tyob import analyse, expect, item, unmodelled_in
+from ..tyob import sibling_defaults, analyse, expect, item, unmodelled_in
 from ..poly import Normaliser, straightline_env, Poly
 from ..program import norm_stmt
 from .c02 import periods_av, xi_av, std_args, NJR, T
@@ -347,6 +347,9 @@ def pair_rule(chk, setup):
                derived="max(%s ; %s)" % (ps[0].canon(), ps[1].canon()), loc=fi.loc(tgt), stmt=norm_stmt(tgt))
     # the cached damping replaces xi exactly for the sentinel -1
     xi_sentinel(chk, fi, c, "R-PAIR", cls_q=ACC)
+    sibling_defaults(chk, "R-PAIR", [ACC + ".gen_response_spectrum", ACC + ".generate_response_spectrum"], neutral={"xi": -1},
+                     label="AccSignal.gen_response_spectrum~generate_response_spectrum")
+    sibling_defaults(chk, "R-PAIR", [ACC + ".response_series"], neutral={"xi": -1}, label="AccSignal.response_series")
     # T_min is the first non-zero period: the variable in the period term is assigned periods[0] when periods[0] != 0, periods[1] otherwise
     okt, why = False, "the period term of the max is not a twice-assigned local (%s)" % tmin_atom
     defs = [n for n in ast.walk(fi.node) if isinstance(n, ast.Assign) and len(n.targets) == 1 and isinstance(n.targets[0], ast.Name) and
